@@ -38,6 +38,20 @@ type Omit struct {
 	F    float64 `db:"f,omitempty"`
 }
 
+// OmitKinds has omitempty members whose kinds are not scalars: structs (a Scanner/Valuer,
+// sql.Null*), byte slices (nil and empty-but-not-nil differ for IsZero), interfaces, bool,
+// pointers to structs.
+type OmitKinds struct {
+	ID int            `db:"id"`
+	NS sql.NullString `db:"ns,omitempty"`
+	NI sql.NullInt64  `db:"ni,omitempty"`
+	V  MyV            `db:"v,omitempty"`
+	Bs []byte         `db:"bs,omitempty"`
+	A  any            `db:"a,omitempty"`
+	Ok bool           `db:"ok,omitempty"`
+	PV *MyV           `db:"pv,omitempty"`
+}
+
 // Emb embeds by value; EmbPtr by pointer; Deep nests both.
 type Emb struct {
 	Person
@@ -294,6 +308,7 @@ var Entries = []Entry{
 	e(Address{}, "struct", false, "id", "district", "street"),
 	e(Manager{}, "struct", false, "id", "name", "address_id"),
 	e(Omit{}, "struct", false, "id", "name", "v", "w", "f"),
+	e(OmitKinds{}, "struct", false, "id", "ns", "ni", "v", "bs", "a", "ok", "pv"),
 	e(Emb{}, "struct", false, "id", "name", "address_id", "extra"),
 	e(Loc{}, "struct", false, "lat", "lon"),
 	e(EmbPtr{}, "struct", false, "lat", "lon", "n"),
